@@ -13,16 +13,17 @@ one() {
     echo "$(basename $d): PATCH-DOES-NOT-APPLY"; rm -rf "$tmp"; return
   fi
   ${MGBIN:-/verif/bin/mgcheck} "$id" quick -repo "$tmp" -quiet > "/verif/$d/own.txt" 2>&1
+  code=$?
   rm -rf "$tmp"
-  python3 - "/verif/$d" "$id" <<'PY'
+  python3 - "/verif/$d" "$id" "$code" <<'PY'
 import json,sys,re,os
 d,pid=sys.argv[1],sys.argv[2]
 txt=open(os.path.join(d,"own.txt")).read()
 rules=sorted(set(m.group(1)+" "+m.group(2) for m in re.finditer(r"rule=(\S+) construct=(\S+)",txt) if not txt[max(0,m.start()-15):m.start()].strip().startswith("KNOWN")))
-fail=re.search(r"PROP %s (\d+)"%pid,txt)
+code=sys.argv[3]
 meta=json.load(open(os.path.join(d,"meta.json")))
 cb=meta.setdefault("caught_by",{})
-if fail and fail.group(1)!="0" and rules:
+if code=="1" and rules:
     cb[pid]=rules
     print(os.path.basename(d),"own property catches",len(rules))
 else:
